@@ -31,7 +31,7 @@ WORLD_INFO = {'real': ['Session.execute_async/_create_response_future/_maybe_get
                        'speculative paths, message encoders'],
               'stub': ['libev C binding', 'sockets/TCP', 'ThreadPoolExecutor', 'fake nodes (independent decoder)', 'tagged recording policies']}
 ASSUMPTIONS = ['timeout tolerance 60 ms of virtual time', 'fetch_size has no profile level: unset means session.default_fetch_size']
-REQUIRED_PROBES = ['statement_overrides_consistency', 'consistency_any', 'bound_inherits_prepared', 'statement_retry_policy', 'timeout_argument',
+REQUIRED_PROBES = ['prepared_options_set_after_a_bind', 'statement_overrides_consistency', 'consistency_any', 'bound_inherits_prepared', 'statement_retry_policy', 'timeout_argument',
                    'profile_timeout', 'speculative_for_idempotent', 'no_speculative_for_non_idempotent', 'named_profile', 'cloned_profile',
                    'legacy_mode', 'batch_statement', 'paging_disabled']
 
@@ -79,6 +79,7 @@ def gen_plan(rng, tier):
              'profile': rng.choice(['default', 'default', 'p1', 'clone']) if mode == 'profile' else 'default'}
         if kind == 'bound':
             r['prepared'] = dict(gen_level(rng), idempotent=rng.random() < 0.5)
+            r['prebind'] = rng.random() < 0.4
             r['idempotent'] = rng.choice([None, None, True, False])       # None: not touched on the bound statement
         requests.append(r)
     return {'cluster': default_cluster_spec(n, versions=(3, 4, 5)), 'version': rng.choice([3, 4, 4, 5]), 'mode': mode, 'profiles': profiles,
@@ -269,6 +270,10 @@ def run_plan(plan, seed, choices=None):
                     sim.probe('batch_statement')
                 else:
                     ps = session.prepare("SELECT * FROM ks1.t WHERE a = ? /*rid=%d*/" % i)
+                    if r.get('prebind'):
+                        # the application already bound this prepared statement once (options set afterwards still count)
+                        ps.bind((i,))
+                        sim.probe('prepared_options_set_after_a_bind')
                     apply_level(ps, r['prepared'], 'prepared')
                     ps.is_idempotent = bool(r['prepared']['idempotent'])
                     stmt = ps.bind((i,))
